@@ -67,6 +67,7 @@ type Probe struct {
 	ClientID     string
 	Acks0        bool // produce with acks=0: no reply expected
 	Frame        []byte
+	Prefix       []byte // bytes written in front of the frame in the same write (PROXY header)
 }
 
 func (p *Probe) Name() string { return fmt.Sprintf("%s v%d", kmsg.NameForKey(p.Key), p.Version) }
@@ -118,7 +119,7 @@ func (p *Probe) Encode() {
 
 // Outcome of one exchange.
 type Outcome struct {
-	Kind  string // reply | reply-then-closed | noreply | closed | timeout | wrong-correlation | extra-reply | io-error
+	Kind  string // reply | reply-then-closed | noreply | closed | request-lost | silent | wrong-correlation | extra-reply
 	Reply []byte
 	Err   error
 	Extra []byte
@@ -148,61 +149,96 @@ func readFrame(conn net.Conn) ([]byte, error) {
 	return b, nil
 }
 
-// Exchange sends the probe followed by a sentinel ApiVersions v0 request on the same
-// connection. Servers answer requests of one connection in order, so the first frame that
-// comes back tells deterministically (without a timeout) whether the probe got a reply:
-// it is either the probe's reply, the sentinel's reply (= no reply for the probe) or EOF.
-// The read deadline only guards the harness against a hung server (-> inconclusive).
+// QuickWait is how long Exchange waits for a frame before it sends a second sentinel.
+const QuickWait = 10 * time.Second
+
+// Exchange writes the probe and a sentinel ApiVersions v0 request (s1) in ONE write (a
+// pipelining client) on the connection. Servers answer the requests of one connection in
+// order, so the frames that come back tell deterministically whether the probe got a reply:
+// the probe's reply then s1's, or s1's alone (= no reply for the probe), or EOF.
+//
+// If nothing arrives for QuickWait, a second sentinel (s2) is sent in a write of its own.
+// When s2 is answered although s1 (sent earlier on the same connection) never was, requests
+// were lost by the server ("request-lost"): evidence by order, not by time. Only when the
+// connection stays open and silent for another `guard` after s2 the outcome is "silent".
 func Exchange(conn net.Conn, p *Probe, guard time.Duration) Outcome {
 	sc := sentinelCorr(p.Corr)
-	sreq := kmsg.NewPtrApiVersionsRequest()
-	sreq.SetVersion(0)
-	sframe := kmsg.NewRequestFormatter(kmsg.FormatterClientID("vf-sentinel")).AppendRequest(nil, sreq, sc)
+	s2c := sc ^ 0x01010101
+	if s2c == p.Corr {
+		s2c ^= 0x10
+	}
+	mk := func(corr int32) []byte {
+		sreq := kmsg.NewPtrApiVersionsRequest()
+		sreq.SetVersion(0)
+		return kmsg.NewRequestFormatter(kmsg.FormatterClientID("vf-sentinel")).AppendRequest(nil, sreq, corr)
+	}
 	// the witness line, should the server under test take the process down
 	if len(p.Frame) <= 4096 {
-		fmt.Fprintf(os.Stdout, "C11-probe %s (%s) %x\n", p.Name(), p.Class, p.Frame)
+		fmt.Fprintf(os.Stdout, "C11-probe %s (%s) prefix=%x %x\n", p.Name(), p.Class, p.Prefix, p.Frame)
 	} else {
-		fmt.Fprintf(os.Stdout, "C11-probe %s (%s) %d bytes, shape=%s, first 256: %x\n", p.Name(), p.Class, len(p.Frame), p.Shape, p.Frame[:256])
+		fmt.Fprintf(os.Stdout, "C11-probe %s (%s) prefix=%x %d bytes, shape=%s, first 256: %x\n", p.Name(), p.Class, p.Prefix, len(p.Frame), p.Shape, p.Frame[:256])
 	}
-	_ = conn.SetDeadline(time.Now().Add(guard))
-	if _, err := conn.Write(append(append([]byte(nil), p.Frame...), sframe...)); err != nil {
-		// the server may already have closed the connection; reading tells
-		_ = err
-	}
-	classify := func(err error) Outcome {
+	_ = conn.SetWriteDeadline(time.Now().Add(guard))
+	out := append(append(append([]byte(nil), p.Prefix...), p.Frame...), mk(sc)...)
+	_, _ = conn.Write(out) // the server may already have closed the connection; reading tells
+	isTimeout := func(err error) bool {
 		var ne net.Error
-		if errors.As(err, &ne) && ne.Timeout() || errors.Is(err, os.ErrDeadlineExceeded) {
-			return Outcome{Kind: "timeout", Err: err}
+		return errors.As(err, &ne) && ne.Timeout() || errors.Is(err, os.ErrDeadlineExceeded)
+	}
+	var reply []byte
+	gotS1, gotS2, sentS2 := false, false, false
+	for {
+		wait := QuickWait
+		if sentS2 {
+			wait = guard
 		}
-		return Outcome{Kind: "closed", Err: err}
-	}
-	f1, err := readFrame(conn)
-	if err != nil {
-		return classify(err)
-	}
-	if len(f1) < 4 {
-		return Outcome{Kind: "wrong-correlation", Reply: f1, Err: fmt.Errorf("reply of %d bytes has no correlation id", len(f1))}
-	}
-	c1 := int32(binary.BigEndian.Uint32(f1[:4]))
-	switch c1 {
-	case sc:
-		return Outcome{Kind: "noreply"}
-	case p.Corr:
-	default:
-		return Outcome{Kind: "wrong-correlation", Reply: f1, Err: fmt.Errorf("reply carries correlation id %d, request had %d", c1, p.Corr)}
-	}
-	f2, err := readFrame(conn)
-	if err != nil {
-		o := classify(err)
-		if o.Kind == "timeout" {
-			return o
+		_ = conn.SetReadDeadline(time.Now().Add(wait))
+		f, err := readFrame(conn)
+		if err != nil {
+			if isTimeout(err) {
+				if !sentS2 {
+					sentS2 = true
+					_ = conn.SetWriteDeadline(time.Now().Add(guard))
+					_, _ = conn.Write(mk(s2c))
+					continue
+				}
+				if gotS1 {
+					break // everything of interest was answered; only s2's reply is slow
+				}
+				return Outcome{Kind: "silent", Reply: reply, Err: fmt.Errorf("connection open but no frame for %v + %v (second sentinel sent in between)", QuickWait, guard)}
+			}
+			if reply != nil {
+				return Outcome{Kind: "reply-then-closed", Reply: reply, Err: err}
+			}
+			return Outcome{Kind: "closed", Err: err}
 		}
-		return Outcome{Kind: "reply-then-closed", Reply: f1, Err: err}
+		if len(f) < 4 {
+			return Outcome{Kind: "wrong-correlation", Reply: f, Err: fmt.Errorf("reply of %d bytes has no correlation id", len(f))}
+		}
+		switch c := int32(binary.BigEndian.Uint32(f[:4])); {
+		case c == p.Corr && reply == nil && !gotS1:
+			reply = f
+		case c == sc && !gotS1:
+			gotS1 = true
+		case c == s2c && sentS2 && !gotS2:
+			gotS2 = true
+		default:
+			if reply != nil {
+				return Outcome{Kind: "extra-reply", Reply: reply, Extra: f}
+			}
+			return Outcome{Kind: "wrong-correlation", Reply: f, Err: fmt.Errorf("reply carries correlation id %d, request had %d", c, p.Corr)}
+		}
+		if gotS2 && !gotS1 {
+			return Outcome{Kind: "request-lost", Reply: reply, Err: fmt.Errorf("a sentinel sent later on the connection was answered, the sentinel pipelined right behind the probe never was (probe answered: %v)", reply != nil)}
+		}
+		if gotS1 && (!sentS2 || gotS2) {
+			break
+		}
 	}
-	if len(f2) >= 4 && int32(binary.BigEndian.Uint32(f2[:4])) == sc {
-		return Outcome{Kind: "reply", Reply: f1}
+	if reply != nil {
+		return Outcome{Kind: "reply", Reply: reply}
 	}
-	return Outcome{Kind: "extra-reply", Reply: f1, Extra: f2}
+	return Outcome{Kind: "noreply"}
 }
 
 // requestFlexible: first from the independent table, else from the codec.
